@@ -13,10 +13,11 @@ PROPERTY = "C07"
 LEVEL = "exploration"
 NEED_EXT = True
 REQUIRED = ["fit.distance", "fit.gain", "predict.balanced.distance", "predict.balanced.gain", "predict.nearest",
-            "hook.switch_clusters", "hook.association", "hook.passes"]
+            "hook.switch_clusters", "hook.association", "hook.passes", "predict.balanced.large_batch"]
 RULE = ("n from k to 200 covering every residue n mod k, k 1-9, d 1-4, data classes blobs / duplicates / identical "
         "points / far outlier / unbalanced 90-5-5 / DataFrame, strategies distance and gain, kmeans0 on/off, batches "
-        "of size 1, k-1, k, k+1, 3k+2 for balanced prediction; non-trivial = k >= 2 and n > k; distinct = distinct "
+        "of size 1, k-1, k, k+1, 3k+2 for balanced prediction, and for one case in six batches of 257, 256+k+1 and 514-516 "
+        "rows gathered round one centre; non-trivial = k >= 2 and n > k; distinct = distinct "
         "(class, n, k, d, strategy, kmeans0, seed)")
 ASSUMPTIONS = ["dense input; DataFrame input only with kmeans0=True (the random initialisation indexes X[c, :])",
                "nearest-centre clause accepts ties within 1e-9 relative",
@@ -241,8 +242,18 @@ def run_case(case, ctx):
                           "nearest centre", cfg=cfg)
         # ---- balanced predictions on several batch sizes
         m.set_params(balanced_predictions=numpy.True_ if npsc else True)
-        for b in sorted({1, max(1, k - 1), k, k + 1, 3 * k + 2, min(n, 2 * k + 1)}):
-            B = (X[rng.randint(n, size=b)] + rng.randn(b, d) * 0.5).astype(X.dtype)
+        batches = {1, max(1, k - 1), k, k + 1, 3 * k + 2, min(n, 2 * k + 1)}
+        large = case["sub"] % 6 == 0 and k >= 2
+        if large:
+            # batches larger than any internal block size, most rows nearest to ONE centre
+            batches |= {257, 256 + k + 1, 514 + (case["sub"] // 6) % 3}
+            cfg["large_batches"] = True
+        for b in sorted(batches):
+            if b > 200:
+                B = (C[0] + rng.randn(b, d) * (0.3 * (numpy.abs(C).max() + 1))).astype(X.dtype)
+                ctx.hit("predict.balanced.large_batch")
+            else:
+                B = (X[rng.randint(n, size=b)] + rng.randn(b, d) * 0.5).astype(X.dtype)
             numpy.random.seed(rs + b)
             try:
                 pb = numpy.asarray(m.predict(B))
